@@ -54,6 +54,8 @@ pub struct SimCtl {
     /// be inside compute for one key when there is no cache or after an eviction)
     pub in_compute: Mutex<Vec<u64>>,
     pub compute_overlap: AtomicU64,
+    /// when Some: every object number passed to the Log seam is recorded
+    pub touched: Mutex<Option<std::collections::BTreeSet<u64>>>,
 }
 
 impl SimCtl {
@@ -72,6 +74,7 @@ impl SimCtl {
             budget_tripped: AtomicU64::new(0),
             in_compute: Mutex::new(vec![]),
             compute_overlap: AtomicU64::new(0),
+            touched: Mutex::new(None),
         })
     }
     pub fn events(&self) -> u64 {
@@ -231,11 +234,17 @@ impl Cache<StmVal> for SimStmCache {
 
 impl Log for SimLog {
     fn load_object(&self, r: PlainRef) {
+        if let Some(t) = self.0.touched.lock().unwrap().as_mut() {
+            t.insert(r.id);
+        }
         self.0.resolves.fetch_add(1, Ordering::Relaxed);
         self.0.on_event();
         sched::yield_here(Kind::LoadObject, r.id);
     }
     fn log_get(&self, r: PlainRef) {
+        if let Some(t) = self.0.touched.lock().unwrap().as_mut() {
+            t.insert(r.id);
+        }
         self.0.gets.fetch_add(1, Ordering::Relaxed);
         self.0.on_event();
         sched::yield_here(Kind::LogGet, r.id);
